@@ -184,7 +184,9 @@ def query_eq(shape: str, template: str, i: int, j: int, a: int, b: int, c: int, 
         except YAMLPathException:
             note(optional_raised=True)
             return False
-        if not _same(opt, want):
+        # "a path that already exists": the optional-match query had nothing to create, i.e. it returns as
+        # many nodes as the required-match query (pass-through paths may exist in some branches only)
+        if len(opt) == len(want) and not _same(opt, want):
             note(optional_differs=[(type(nc.parent).__name__, nc.parentref) for nc in opt])
             return False
     return True
@@ -192,10 +194,10 @@ def query_eq(shape: str, template: str, i: int, j: int, a: int, b: int, c: int, 
 
 # (shape, template) pairs: quick set, the rest is the thorough product over the applicability table
 LISTS = ["L3", "L2", "L1", "L0", "ML3", "ML4", "ML0", "LNULL"]
-LIST_T = ["idx", "barekey", "slice", "el_gt", "el_ngt", "el_le", "el_ge", "el_lt", "el_eq", "el_neq", "el_eqi", "el_sw",
+LIST_T = ["idx", "barekey", "slice", "el_gt", "el_ngt", "el_le", "el_ge", "el_lt", "el_eq", "el_neq", "el_sw",
           "el_ew", "el_has", "el_eqx", "el_gtx", "star", "deep", "self", "nope"]
 AOHS = ["AOH3", "AOHX", "AOHN", "AOHP0", "AOHD"]
-AOH_T = ["p", "idx_p", "slice_p", "at_gt", "at_ngt", "at_eq", "at_neq", "at_le", "at_gei", "at_gt_n", "at_desc", "at_ndesc",
+AOH_T = ["p", "idx_p", "slice_p", "at_gt", "at_ngt", "at_eq", "at_neq", "at_le", "at_gt_n", "at_desc", "at_ndesc",
          "p_el_gt", "star", "star_p", "star_at", "deep", "deep_p", "deep_p_el", "d_p", "idx", "slice", "nope"]
 HASHES = ["M3", "M0", "MM", "MNULL", "MINT", "MSTRNUM", "HOH", "SCAL"]
 HASH_T = ["p", "nope", "k1", "hslice", "hslice2", "key_sw", "key_neq", "key_gt", "at_gt", "at_ngt", "at_eq", "star",
@@ -203,7 +205,7 @@ HASH_T = ["p", "nope", "k1", "hslice", "hslice2", "key_sw", "key_neq", "key_gt",
 OTHER = [("LL", "idx_idx"), ("LL", "star_idx"), ("LL", "star"), ("LL", "deep"), ("LL", "idx"), ("LMIX", "idx"),
          ("LMIX", "p"), ("LMIX", "deep"), ("LMIX", "star"), ("LHASH", "p"), ("LHASH", "star_p"), ("LSTR", "idx"),
          ("LSTR", "deep"), ("SET", "p"), ("SET", "self"), ("SETI", "k1"), ("ROOTSCALAR", "self"), ("ROOTSCALAR", "el_gt"),
-         ("SCAL", "el_gt"), ("SCAL", "el_eq")]
+         ("SCAL", "el_gt"), ("SCAL", "el_eq"), ("L3", "el_eqi"), ("AOH3", "at_gei")]
 QUICK = [("L3", "idx"), ("ML3", "barekey"), ("ML4", "slice"), ("L3", "el_gt"), ("ML3", "el_ngt"), ("LNULL", "el_eq"),
          ("L3", "el_has"), ("AOH3", "p"), ("AOHX", "at_gt"), ("AOHX", "at_ngt"), ("AOHN", "at_eq"), ("AOHP0", "p"),
          ("AOHD", "at_desc"), ("AOH3", "at_gt_n"), ("AOH3", "idx_p"), ("AOHX", "star_p"), ("AOHD", "deep_p"),
@@ -226,6 +228,8 @@ def _mk(shape, template, tier):
                     ("/pn", ["0 <= i <= 6", "-6 <= j < 0"]), ("/pp", ["0 <= i <= 6", "0 <= j <= 6"])]
     elif uses_i:
         variants = [("", ["-6 <= i <= 6"])]
+        if template in ("el_eqi", "at_gei"):
+            variants = [("", ["-2 <= i <= 2"])]     # a symbolic search *term* is realised per value (engine limit)
     fixed = two and tier == "quick"
     params += [("a", "int"), ("b", "int"), ("c", "int")] + ([] if fixed else [("slash", "bool")])
     call = "query_eq(%r, %r, %s, %s, a, b, c, %s)" % (shape, template, "i" if uses_i else "0", "j" if uses_j else "0",
